@@ -20,6 +20,8 @@ enum OState
 {
     /// Exists in the abstract state, the implementation has not shown the command yet.
     Created,
+    /// A polled reaction has been detected and queued by the implementation (not applied yet).
+    Scheduled,
     /// The implementation applied the command (CommandApply seen), no decision yet.
     Reached,
     /// Buffered because the target was executing.
@@ -680,8 +682,10 @@ impl<'a> Monitor<'a>
             Op::DespawnRecursive(e) => { self.kill_ent(e, true); self.update_refcounts(); }
             Op::DespawnSys(a) =>
             {
-                let x = &mut self.actors[a as usize];
-                if x.alive { x.alive = false; x.killed = true; x.must_be_dead = true; }
+                if let Some(x) = self.actors.get_mut(a as usize)
+                {
+                    if x.alive { x.alive = false; x.killed = true; x.must_be_dead = true; }
+                }
             }
             Op::Register(a, b, mode) => { self.register(a, &b, mode, issued.token); }
             Op::RegisterNew(variant, b, mode) =>
@@ -797,7 +801,7 @@ impl<'a> Monitor<'a>
             match o.state
             {
                 OState::Done | OState::Aborted | OState::Cancelled => {}
-                OState::Created =>
+                OState::Created | OState::Scheduled =>
                 {
                     if o.polled || o.optional || exempt_cmd == Some(o.creator) { continue; }
                     // its command should have been applied by now
@@ -1014,53 +1018,18 @@ impl<'a> Monitor<'a>
             }
         }
 
-        // removal reactions are matched on demand against abstract removal events
-        if let Kind::Removal(c) = kind
+        // polled reactions were announced when the poll scheduled them
+        if polled_kind
         {
-            let Some(Name::Ent(e)) = source else
-            {
-                self.viol("C08", "R-polled", "removal-unknown-source".into(),
-                    format!("removal reaction for {:?} with source {:?}", c, source));
-                self.pending = Pending::None;
-                return;
-            };
-            // registration live now?
-            let ent_alive = self.ents[e as usize].alive;
-            let reg = self.regs.iter().position(|r| r.live && r.actor == actor
-                && (r.trig == Trig::Removal(c) || (r.trig == Trig::EntityRemoval(c, e) && ent_alive)));
-            // an abstract removal event this registration has not reacted to
-            let mut found: Option<(usize, usize)> = None;
-            if reg.is_some()
-            {
-                'outer: for (pi, p) in self.polled.iter().enumerate()
-                {
-                    if p.comp != Some(c) || p.ent != e { continue; }
-                    for (ri, r) in self.regs.iter().enumerate()
-                    {
-                        if !r.live || r.actor != actor { continue; }
-                        if !(r.trig == Trig::Removal(c) || (r.trig == Trig::EntityRemoval(c, e) && ent_alive)) { continue; }
-                        if p.reacted.contains(&ri) { continue; }
-                        found = Some((pi, ri));
-                        break 'outer;
-                    }
-                }
-            }
+            let found = self.obls.iter().position(|o| o.state == OState::Scheduled && o.actor == actor && o.kind == kind
+                && o.source == source);
             match found
             {
-                Some((pi, ri)) =>
-                {
-                    self.polled[pi].reacted.push(ri);
-                    let cmd = self.cur_cmd().unwrap_or(CmdId{ by: Issuer::Top, idx: u16::MAX });
-                    let i = self.new_obl(actor, kind, source, None, cmd);
-                    self.obls[i].polled = true;
-                    self.obls[i].state = OState::Reached;
-                    self.pending = Pending::Cmd(i);
-                }
+                Some(i) => { self.obls[i].state = OState::Reached; self.pending = Pending::Cmd(i); }
                 None =>
                 {
-                    self.viol("C08", "R-polled", "spurious-removal".into(),
-                        format!("removal reaction of actor {actor} for {:?} on entity {e}: no unreacted removal of that \
-                            component for a registration that is live now", c));
+                    self.viol("C08", "R-polled", format!("unscheduled-polled-reaction:{}", kind_class(kind)),
+                        format!("a {:?} reaction command for actor {actor} (source {:?}) is applied but no poll scheduled it", kind, source));
                     let cmd = self.cur_cmd().unwrap_or(CmdId{ by: Issuer::Top, idx: u16::MAX });
                     let i = self.new_obl(actor, kind, source, None, cmd);
                     self.obls[i].polled = true;
@@ -1126,6 +1095,97 @@ impl<'a> Monitor<'a>
                 self.obls[i].state = OState::Reached;
                 self.obls[i].polled = matches!(kind, Kind::Despawn);
                 self.pending = Pending::Cmd(i);
+            }
+        }
+    }
+
+    /// A poll detected a removal / despawn and queued a reaction for `target`.
+    fn on_scheduled(&mut self, kind: Kind, target: Name, source: Name)
+    {
+        let Name::Actor(actor) = target else
+        {
+            self.viol("C08", "R-polled", "foreign-target".into(), format!("polled reaction scheduled for unknown target {:?}", target));
+            return;
+        };
+        let cmd = self.cur_cmd().unwrap_or(CmdId{ by: Issuer::Top, idx: u16::MAX });
+        match kind
+        {
+            Kind::Removal(c) =>
+            {
+                let Name::Ent(e) = source else
+                {
+                    self.viol("C08", "R-polled", "removal-unknown-source".into(),
+                        format!("removal reaction for {:?} with source {:?}", c, source));
+                    return;
+                };
+                // a removal of that component from that entity which a registration of this actor, live now, has
+                // not reacted to yet
+                let ent_alive = self.ents[e as usize].alive;
+                let mut found: Option<(usize, usize)> = None;
+                // first the removals this registration is obliged to react to (registered before they happened),
+                // then those it may react to (registered between the removal and the poll)
+                'outer: for obliged in [true, false]
+                {
+                    for (pi, p) in self.polled.iter().enumerate()
+                    {
+                        if p.comp != Some(c) || p.ent != e || p.closed { continue; }
+                        for (ri, r) in self.regs.iter().enumerate()
+                        {
+                            if !r.live || r.actor != actor { continue; }
+                            if !(r.trig == Trig::Removal(c) || (r.trig == Trig::EntityRemoval(c, e) && ent_alive)) { continue; }
+                            if (r.since <= p.at) != obliged { continue; }
+                            if p.reacted.contains(&ri) { continue; }
+                            found = Some((pi, ri));
+                            break 'outer;
+                        }
+                    }
+                }
+                match found
+                {
+                    Some((pi, ri)) => { self.polled[pi].reacted.push(ri); }
+                    None =>
+                    {
+                        let ever = self.polled.iter().any(|p| p.comp == Some(c) && p.ent == e);
+                        let had_reg = self.regs.iter().any(|r| r.actor == actor && matches!(r.trig, Trig::Removal(x) | Trig::EntityRemoval(x, _) if x == c));
+                        let (prop, sig) = if !ever { ("C08", "removal-reaction-without-removal") }
+                            else if had_reg && !self.regs.iter().any(|r| r.live && r.actor == actor && matches!(r.trig, Trig::Removal(x) | Trig::EntityRemoval(x, _) if x == c)) { ("C06", "removal-reaction-for-dead-registration") }
+                            else { ("C08", "duplicate-or-unregistered-removal-reaction") };
+                        self.viol(prop, "R-polled", sig.into(),
+                            format!("removal reaction of actor {actor} for {:?} on entity {e} scheduled: no unreacted removal \
+                                of that component for a registration of that actor that is live now", c));
+                    }
+                }
+                let i = self.new_obl(actor, kind, Some(source), None, cmd);
+                self.obls[i].polled = true;
+                self.obls[i].state = OState::Scheduled;
+            }
+            Kind::Despawn =>
+            {
+                let found = self.obls.iter().position(|o| o.state == OState::Created && o.polled && o.kind == Kind::Despawn
+                    && o.actor == actor && o.source == Some(source));
+                match found
+                {
+                    Some(i) => { self.obls[i].state = OState::Scheduled; }
+                    None =>
+                    {
+                        let cancelled = self.obls.iter().any(|o| o.state == OState::Cancelled && o.actor == actor
+                            && o.kind == kind && o.source == Some(source));
+                        let src_alive = match source { Name::Ent(e) => self.ents[e as usize].alive, _ => false };
+                        let (prop, sig) = if cancelled { ("C06", "revoked-despawn-reaction") }
+                            else if src_alive { ("C08", "despawn-reaction-for-live-entity") }
+                            else { ("C08", "duplicate-or-unregistered-despawn-reaction") };
+                        self.viol(prop, "R-polled", sig.into(),
+                            format!("despawn reaction of actor {actor} for {:?} scheduled although no despawn of that entity \
+                                is pending for a registration of that actor (entity alive: {src_alive})", source));
+                        let i = self.new_obl(actor, kind, Some(source), None, cmd);
+                        self.obls[i].polled = true;
+                        self.obls[i].state = OState::Scheduled;
+                    }
+                }
+            }
+            _ =>
+            {
+                self.viol("C08", "R-polled", "scheduled-non-polled-kind".into(), format!("{:?} scheduled by a poll", kind));
             }
         }
     }
@@ -1552,7 +1612,7 @@ impl<'a> Monitor<'a>
         {
             if o.created_at < since { continue; }
             if matches!(o.state, OState::Done | OState::Aborted | OState::Cancelled) { continue; }
-            if o.state == OState::Created && (o.polled || o.optional || exempt == Some(o.creator)) { continue; }
+            if matches!(o.state, OState::Created | OState::Scheduled) && (o.polled || o.optional || exempt == Some(o.creator)) { continue; }
             bad.push(i);
         }
         for i in bad
@@ -1600,7 +1660,7 @@ impl<'a> Monitor<'a>
             {
                 OState::Done | OState::Aborted | OState::Cancelled | OState::Exited => true,
                 OState::Running => o.kind == Kind::SysEvent,
-                OState::Created | OState::Reached | OState::Postponed => !self.actor_alive(o.actor) || o.optional,
+                OState::Created | OState::Scheduled | OState::Reached | OState::Postponed => !self.actor_alive(o.actor) || o.optional,
             };
             if !ok
             {
@@ -1637,6 +1697,15 @@ impl<'a> Monitor<'a>
         // R-once: nothing non-polled may be pending
         let since = self.root_cmd_pos;
         self.check_tree_end(since, None);
+        // polled reactions that a poll scheduled must have run by now
+        let stuck: Vec<usize> = self.obls.iter().enumerate().filter(|(_, o)| o.state == OState::Scheduled).map(|(i, _)| i).collect();
+        for i in stuck
+        {
+            let o = self.obls[i].clone();
+            self.obls[i].state = OState::Cancelled;
+            self.viol("C08", "R-polled", format!("scheduled-never-ran:{}", kind_class(o.kind)),
+                format!("the {:?} reaction of actor {} for {:?} was scheduled by a poll but never ran", o.kind, o.actor, o.source));
+        }
         self.check_live(live);
 
         // R-release: every payload sent so far is gone
@@ -1680,6 +1749,14 @@ impl<'a> Monitor<'a>
         {
             abs.push((trig_key(&r.trig), Name::Actor(r.actor)));
         }
+        // a despawn that no poll has seen yet still sits in the implementation's despawn table
+        for o in self.obls.iter()
+        {
+            if o.kind == Kind::Despawn && o.polled && o.state == OState::Created
+            {
+                if let Some(Name::Ent(e)) = o.source { abs.push((trig_key(&Trig::Despawn(e)), Name::Actor(o.actor))); }
+            }
+        }
         abs.sort();
         let mut imp: Vec<(String, Name)> = Vec::new();
         for (kind, ty, ent, reactors) in snap.tables.iter()
@@ -1722,6 +1799,7 @@ impl<'a> Monitor<'a>
             TEv::Hook(h) => match h
             {
                 Hook::CommandApply{ kind, target, source, .. } => self.on_command_apply(*kind, *target, *source),
+                Hook::Scheduled{ kind, target, source } => self.on_scheduled(*kind, *target, *source),
                 Hook::RunnerEnter{ target, counter } => self.on_runner_enter(*target, *counter),
                 Hook::RunnerDecision{ target, decision } => self.on_decision(*target, *decision),
                 Hook::RunnerBodyDone{ .. } => { self.gc_point(); }
